@@ -1,7 +1,7 @@
 (* Properties/C01.v -- C01: every stored snapshot is a valid texture, after any update history *)
 From Coq Require Import Reals ZArith List.
 From Coquelicot Require Import Hierarchy Derive.
-From PV Require Import Num NumR Model_core Model_minerals Proofs_core Proofs_minerals Proofs_rhs Proofs_flow Proofs_path Proofs_path2.
+From PV Require Import Num NumR Model_core Model_minerals Proofs_core Proofs_minerals Proofs_rhs Proofs_flow Proofs_path Proofs_path2 Proofs_path3.
 From PV.gen Require Import Gen_core.
 Import ListNotations.
 Open Scope R_scope.
@@ -130,3 +130,63 @@ Example C01_solution_nonvacuous :
   (forall t, exists out, @rhs NumR 4 0 0 2 [0%Z] [1] (repeat 0 9) 0 [] 1.5 3.5 30 125 (ylist 2 (fun j => y j t)) = Ok out) /\
   (forall r r', (r < 3)%nat -> (r' < 3)%nat -> gram (grainA y 1) r r' 0 = if Nat.eqb r r' then 1 else 0).
 Proof. exact solution_hyps_nonvacuous_proof. Qed.
+
+(* ---- right-handedness along exact solutions ---------------------------------------------------------
+   grain_det y g t = the 3x3 determinant of the entries y (9 + 9 g + k) t, k = 0..8 (row-major), of grain g. *)
+
+(* the kernel's rate of every grain is  w x a_i  row by row with ONE spin vector w per grain, in both
+   dislocation regimes (regime 6 scales w by 0.3), for any number of grains and any path through the kernel *)
+Theorem C01_rate_is_common_spin :
+  forall regime ph fb os fs (D L S : arr NumR) p n lam M phi Ads fds,
+  dislocation_regime regime ->
+  @derivs NumR regime ph fb os fs D L S p n lam M phi = Ok (Ads, fds) ->
+  Forall2 (fun A Ad => exists w : nat -> R, forall i, lt3 i ->
+             m3 Ad i 0 = w 1%nat * m3 A i 2 - w 2%nat * m3 A i 1 /\
+             m3 Ad i 1 = w 2%nat * m3 A i 0 - w 0%nat * m3 A i 2 /\
+             m3 Ad i 2 = w 0%nat * m3 A i 1 - w 1%nat * m3 A i 0) os Ads.
+Proof. exact derivs_spin. Qed.
+
+(* the vector field itself: by trilinearity of det the rate of det A_g vanishes -- no orthonormality needed --
+   at every state whose grain-g entries lie in [-1,1] (clip of extract_vars inactive), any L, s, mineral;
+   ddet F G = sum_ij cof(F)_ij G_ij is the derivative of det at F in direction G *)
+Theorem C01_field_conserves_handedness :
+  forall (regime ph fb : Z) (n : nat) (ass : list Z) (frs Sd : list R) (p nn lam M : R)
+         (L : list R) (s : R) (y : nat -> R) (g : nat),
+  dislocation_regime regime -> (g < n)%nat ->
+  (forall k, (k < 9)%nat -> -1 <= y (9 + 9 * g + k)%nat <= 1) ->
+  ddet (fun k => y (9 + 9 * g + k)%nat)
+       (fun k => vf regime ph fb n ass frs Sd p nn lam M L s y (9 + 9 * g + k)%nat) = 0.
+Proof. exact vf_det_rate. Qed.
+
+(* det A_g(b) = det A_g(a) along any exact solution, as long as grain g's entries stay in [-1,1] on [a,b].
+   PARTIAL in the same sense as C01_solution_keeps_orthonormality_partial: the invariance of the unclipped
+   region is an assumption on the trajectory, not proved *)
+Theorem C01_solution_keeps_handedness_partial :
+  forall (regime ph fb : Z) (n : nat) (ass : list Z) (frs Sd : list R) (p nn lam M : R)
+         (Lh : R -> list R) (sh : R -> R) (y : nat -> R -> R) (a b : R) (g : nat),
+  dislocation_regime regime -> a <= b -> (g < n)%nat ->
+  (forall i t, a <= t <= b ->
+     is_derive (y i) t (f regime ph fb n ass frs Sd p nn lam M Lh sh t (fun j => y j t) i)) ->
+  (forall k t, (k < 9)%nat -> a <= t <= b -> -1 <= y (9 + 9 * g + k)%nat t <= 1) ->
+  detF (fun k u => y (9 + 9 * g + k)%nat u) b = detF (fun k u => y (9 + 9 * g + k)%nat u) a.
+Proof. exact solution_det_constant. Qed.
+
+(* corollary: a proper rotation at a (orthonormal, det = 1) is a proper rotation at b -- same partiality *)
+Theorem C01_solution_stays_proper_rotation_partial :
+  forall (regime ph fb : Z) (n : nat) (ass : list Z) (frs Sd : list R) (p nn lam M : R)
+         (Lh : R -> list R) (sh : R -> R) (y : nat -> R -> R) (a b : R) (g : nat),
+  dislocation_regime regime -> a <= b -> (g < n)%nat ->
+  (forall i t, a <= t <= b ->
+     is_derive (y i) t (f regime ph fb n ass frs Sd p nn lam M Lh sh t (fun j => y j t) i)) ->
+  (forall k t, (k < 9)%nat -> a <= t <= b -> -1 <= y (9 + 9 * g + k)%nat t <= 1) ->
+  (forall r r', (r < 3)%nat -> (r' < 3)%nat -> gram (grainA y g) r r' a = if Nat.eqb r r' then 1 else 0) ->
+  grain_det y g a = 1 ->
+  (forall r r', (r < 3)%nat -> (r' < 3)%nat -> gram (grainA y g) r r' b = if Nat.eqb r r' then 1 else 0)
+  /\ grain_det y g b = 1.
+Proof. exact solution_stays_rotation. Qed.
+
+(* non-vacuity: both grains of the witness of C01_solution_nonvacuous have determinant 1 *)
+Example C01_solution_handedness_nonvacuous :
+  let y := fun (i : nat) (_ : R) => y0_example i in
+  grain_det y 0 0 = 1 /\ grain_det y 1 0 = 1.
+Proof. exact handedness_nonvacuous_proof. Qed.
